@@ -287,6 +287,13 @@ func (self *PathNode) scanChildren(p *binary.BinaryProtocol, recurse bool, opts 
 	case proto.MESSAGE:
 		messageDesc := desc.Message()
 		start := p.Read
+		if start+messageLen > len(p.Buf) {
+			return wrapError(meta.ErrRead, "PathNode.scanChildren: message length exceeds the buffer", nil)
+		}
+		// NOTICE: a LIST/MAP child is a run of records with the same field number, which ends at the latest
+		// where this message does: the next record of the outer message may have the same number
+		buf := p.Buf
+		p.Buf = p.Buf[:start+messageLen]
 		// range all fields formats: [FieldTag(L)V][FieldTag(L)V][FieldTag(L)V]...
 		for p.Read < start+messageLen {
 			fieldNumber, wireType, tagLen, tagErr := p.ConsumeTag()
@@ -307,6 +314,7 @@ func (self *PathNode) scanChildren(p *binary.BinaryProtocol, recurse bool, opts 
 			}
 			v.Path = NewPathFieldId(fieldNumber)
 		}
+		p.Buf = buf
 	case proto.LIST:
 		// range all elements
 		// FieldDesc := (*desc).(proto.FieldDescriptor)
